@@ -8,6 +8,7 @@ snapshot is what a process crash at that point leaves behind.  The oracle
 looks at each snapshot: the target is complete-old or complete-new, and any
 other file in the directory carries the temporary-name pattern.
 """
+import io
 import os
 import pickle
 
@@ -20,7 +21,7 @@ META = dict(
     property="C52",
     level="fault_enumeration",
     technique="directory snapshot before every state-changing filesystem call and at partial lengths inside every write of FilePath.setContent and sob.Persistent.save (pickle and source styles); old-or-new oracle on every snapshot",
-    level_text="All crash points of every generated replacement are enumerated: before os.open/open-for-write, before each write and after 1, n/2, n-1 and one generated length of it (every length for n <= 12), before rename/remove, and the final state. Contents, target existence, name, extension (str/bytes, several values), path mode, sob style/tag/filename and the saved objects are generated (Hypothesis) plus a complete small grid. Process-crash model: completed system calls persist in order (no power-loss reordering; that is what the docstring's journaling assumptions are about).",
+    level_text="All crash points of every generated replacement are enumerated: before os.open/open-for-write, before each write and after 1, n/2, n-1 and one generated length of it (every length for n <= 12), before rename/remove, and the final state. Contents, target existence, name, extension (str/bytes, several values), path mode, sob style/tag/filename and the saved objects are generated (Hypothesis) plus a complete small grid. If the code under test writes through a raw (unbuffered) file, the harness, acting as the OS, may accept only part of a write() and report that in the return value (short write). Process-crash model: completed system calls persist in order (no power-loss reordering; that is what the docstring's journaling assumptions are about).",
     level_note="Trusted: the recorder sees every state-changing call because os.open/os.fdopen/os.rename/os.remove/os.unlink and the name `open` inside twisted.python.filepath and twisted.persisted.sob are all replaced while the code under test runs. UNIX path only (the documented Windows delete-then-rename window is outside this platform).",
     design_ref="§5 C52",
     rule="case = (api, old content or absent, new content, naming variation, partial-write fraction, optionally an earlier call that crashed at a generated crash point so that this call starts with its leftover temporary file). One evaluation = one replacement with all its crash states. non-trivial = a crash state in which a temporary file holds a partial or complete copy of the new content while the target still shows the old state; distinct by (api, old, bytes written so far, new).",
@@ -44,9 +45,12 @@ def _read_dir(d):
 
 
 class _Recorder:
-    def __init__(self, d, frac):
+    def __init__(self, d, frac, short=None):
         self.d = d
         self.frac = frac
+        self.short = short        # percentage at which a raw write() is cut short (None: never)
+        self.raw_writes = 0
+        self.short_returns = 0
         self.active = False
         self.states = []      # (why, {name: bytes})
         self.calls = 0        # crash points seen (states are de-duplicated)
@@ -73,6 +77,10 @@ class _WFile:
         self._rec = rec
         self._f = f
         self._pending = b""
+        # a raw (unbuffered) file hands write() straight to the OS, which may
+        # accept fewer bytes than offered and say so only in the return value
+        self._raw = isinstance(f, io.RawIOBase)
+        self._shorted = False
 
     def _drain(self, why):
         if self._pending:
@@ -96,12 +104,24 @@ class _WFile:
             self._f.write(raw)
             return len(raw)
         rec.snap("before write")
+        if self._raw:
+            rec.raw_writes += 1
+            if rec.short is not None and not self._shorted and len(raw) > 1:
+                # the OS takes only part of it (disk filling up, quota, RLIMIT_FSIZE, >2 GiB): no error, short count
+                k = max(1, min(len(raw) - 1, (len(raw) * rec.short) // 100))
+                self._f.write(raw[:k])
+                self._shorted = True
+                rec.short_returns += 1
+                return k
         prev = 0
         for c in rec.cuts(len(raw)):
             self._f.write(raw[prev:c])
             self._f.flush()
             prev = c
             rec.snap(f"inside write {c}/{len(raw)}")
+        if self._raw:
+            self._f.write(raw[prev:])
+            return len(raw)
         self._pending = raw[prev:]
         return len(data)
 
@@ -174,6 +194,15 @@ class _Patched:
                 del m.open
 
 
+def _count_raw(ctx, rec, api):
+    if rec.short is not None:
+        ctx.count(f"{api}: short-write dimension armed")
+    if rec.raw_writes:
+        ctx.count(f"{api}: code under test wrote through a raw (unbuffered) file")
+    if rec.short_returns:
+        ctx.count(f"{api}: raw write() returned a short count")
+
+
 def _materialize(d, tree):
     """Make directory d hold exactly `tree` (a crash state of an earlier call)."""
     for n in os.listdir(d):
@@ -235,7 +264,7 @@ def _case_setcontent(ctx, case, d):
     if case.get("mid") is not None:
         # an earlier setContent(mid) crashed at one of its crash points; this
         # call starts on what it left behind
-        rec0 = _Recorder(d, case.get("frac", 50))
+        rec0 = _Recorder(d, case.get("frac", 50), case.get("short"))
         fp0 = FilePath(target_path)
         with _Patched(rec0):
             rec0.active = True
@@ -253,7 +282,7 @@ def _case_setcontent(ctx, case, d):
     fp = FilePath(target_path.encode() if case.get("bytes_path") else target_path)
     if case.get("statted"):
         fp.exists()          # cached stat information must not matter
-    rec = _Recorder(d, case.get("frac", 50))
+    rec = _Recorder(d, case.get("frac", 50), case.get("short"))
     with _Patched(rec):
         rec.active = True
         try:
@@ -264,6 +293,7 @@ def _case_setcontent(ctx, case, d):
         finally:
             rec.active = False
         rec.snap("call returned")
+    _count_raw(ctx, rec, "setContent")
     ext_s = ".new" if ext is None else (ext.decode() if isinstance(ext, bytes) else ext)
     _judge(ctx, case, rec.states, name, old, new,
            lambda n: n.endswith(name + ext_s) and n != name, "setContent", pre_extra)
@@ -299,7 +329,7 @@ def _case_sob(ctx, case, d):
             expect = jellyToSource(obj).encode("utf-8")
         p = sob.Persistent(obj, name)
         p.setStyle(style)
-        rec = _Recorder(d, case.get("frac", 50))
+        rec = _Recorder(d, case.get("frac", 50), case.get("short"))
         with _Patched(rec):
             rec.active = True
             try:
@@ -307,6 +337,7 @@ def _case_sob(ctx, case, d):
             finally:
                 rec.active = False
             rec.snap("call returned")
+        _count_raw(ctx, rec, "sob-" + style)
         _judge(ctx, case, rec.states, target, old_bytes, expect, is_temp, "sob-" + style, pre_extra)
         loaded = sob.load(final, style)
         if loaded != obj:
@@ -366,7 +397,7 @@ def _setcontent_strategy():
                              st.integers(0, len(new)).map(lambda k: new[:k])))     # old may be a prefix of new
         mid = draw(st.one_of(st.none(), _content()))
         return dict(api="setContent", name=draw(name), ext=draw(ext), old=old, new=new, mid=mid,
-                    resume=draw(st.integers(0, 12)),
+                    resume=draw(st.integers(0, 12)), short=draw(st.one_of(st.none(), st.integers(1, 99))),
                     bytes_path=draw(st.booleans()), statted=draw(st.booleans()), frac=draw(st.integers(1, 99)))
     return case()
 
@@ -384,6 +415,7 @@ def _sob_strategy():
                      tag=st.one_of(st.none(), st.sampled_from(["shutdown", "t2"])),
                      use_filename=st.booleans(), has_old=st.booleans(),
                      resume=st.one_of(st.none(), st.integers(0, 12)),
+                     short=st.one_of(st.none(), st.integers(1, 99)),
                      old_obj=_obj(), new_obj=_obj(), frac=st.integers(1, 99))
 
 
@@ -393,7 +425,7 @@ def _grid():
         for new in contents:
             for ext in (None, ".tmp", b".new"):
                 yield dict(api="setContent", name="t.txt", ext=ext, old=old, new=new,
-                           bytes_path=ext is not None and isinstance(ext, bytes), statted=old is not None, frac=37)
+                           bytes_path=ext is not None and isinstance(ext, bytes), statted=old is not None, frac=37, short=50)
     objs = [{}, [1, 2, 3], {"a": [1, "two", 3.0, None], "b": {"c": b"bytes"}}, "s" * 50]
     for style in ("pickle", "source"):
         for has_old in (False, True):
@@ -403,12 +435,12 @@ def _grid():
                         continue
                     for tag, use_filename in ((None, False), ("shutdown", False), (None, True)):
                         yield dict(api="sob", style=style, name="app", tag=tag, use_filename=use_filename,
-                                   has_old=has_old, old_obj=o, new_obj=n, frac=37)
+                                   has_old=has_old, old_obj=o, new_obj=n, frac=37, short=50)
                     if has_old:
                         # the second save starts on every crash state of the first
                         for resume in range(0, 9):
                             yield dict(api="sob", style=style, name="app", tag=None, use_filename=False,
-                                       has_old=True, old_obj=o, new_obj=n, frac=37, resume=resume)
+                                       has_old=True, old_obj=o, new_obj=n, frac=37, resume=resume, short=50)
 
 
 def _hyp_shard(sub, i):
